@@ -268,9 +268,11 @@ def topoPFitTrace (K : TopoKernel X Wt α μ) (cfg : SearchCfg μ θ) (th0 : θ)
     (veto : TopoState Wt → X → Nat → Bool) (s : TopoState Wt) (xs : List X) : List (TopoState Wt) :=
   topoTrace (topoPFitStep K cfg th0 veto) (topoPFitInit s xs.length) (xs.zipIdx s.labels.length)
 
-/-- `predict`: row-wise `step_pred`; `none` where `np.argmax` of an empty list raises -/
-def topoPredict (K : TopoKernel X Wt α μ) (W : List Wt) (xs : List X) : List (Option Nat) :=
-  xs.map (fun x => argmaxNp (topoActivations K W x))
+/-- `predict`: row-wise `TopoART.step_pred`; a model emptied by pruning labels every row `-1`
+(the orphan label `prune` uses; repaired defect F14 — it used to raise); `none` is unreachable for a
+non-empty model -/
+def topoPredict (K : TopoKernel X Wt α μ) (W : List Wt) (xs : List X) : List (Option Int) :=
+  xs.map (fun x => if W.isEmpty then some (-1) else (argmaxNp (topoActivations K W x)).map Int.ofNat)
 
 /-- training calls of a history -/
 inductive TopoCall (X : Type) where
